@@ -2,7 +2,7 @@ package redisemu
 
 import "strings"
 
-func redisGlob(pattern, candidate []rune) bool {
+func redisGlob(pattern, candidate []byte) bool {
 
 	if pattern == nil {
 		return true
@@ -43,10 +43,10 @@ func redisGlob(pattern, candidate []rune) bool {
 				if letter == '\\' && patPos+1 < len(pattern) {
 					patPos++
 				}
-				patSet.WriteRune(pattern[patPos])
+				patSet.WriteByte(pattern[patPos])
 				patPos++
 			}
-			if !strings.ContainsRune(patSet.String(), candidate[i]) {
+			if strings.IndexByte(patSet.String(), candidate[i]) < 0 {
 				return false
 			}
 		} else if patCh == '\\' && patPos+1 < len(pattern) {
